@@ -767,13 +767,20 @@ class Hugr(Mapping[Node, NodeData], Generic[OpVarCov]):
             )
             assert n.idx == idx, "Nodes should be added contiguously"
 
-        for (src_node, src_offset), (dst_node, dst_offset) in serial.edges:
-            if src_offset is None or dst_offset is None:
-                continue
-            hugr.add_link(
-                Node(src_node, _metadata=get_meta(src_node)).out(src_offset),
-                Node(dst_node, _metadata=get_meta(dst_node)).inp(dst_offset),
+        def order_or(port: P, offset: PortOffset | None) -> P:
+            # An edge written without an offset, or at the offset of the node's
+            # order port, is a state-order edge: offset -1 in memory.
+            op = hugr[port.node].op
+            is_order = offset is None or (
+                isinstance(op, Call | DataflowOp)
+                and offset == hugr._order_port_offset(port)
             )
+            return port if is_order else replace(port, offset=offset)
+
+        for (src_node, src_offset), (dst_node, dst_offset) in serial.edges:
+            src = Node(src_node, _metadata=get_meta(src_node)).out(-1)
+            dst = Node(dst_node, _metadata=get_meta(dst_node)).inp(-1)
+            hugr.add_link(order_or(src, src_offset), order_or(dst, dst_offset))
 
         return hugr
 
